@@ -22,3 +22,6 @@ struct bg_adj *bg_cur_adj;
 bg_ghost_frontier_t bg_ghost_frontier;
 bg_file_t bg_file;
 bg_bool bg_SYSTEM_IS_BIG_ENDIAN;
+const bg_size BG_VERTEX_MAX = 4294967295ul;
+bg_size bg_ghost_scans;
+VertexIndex bg_scratch_u;
